@@ -295,6 +295,10 @@ def _transparent(run, P):
         else:
             types = [dotted(h.type) or norm(h.type)]
         ok = all(t in CONTROL for t in types)
+        if not ok and any(t.startswith("self.") and t not in CONTROL for t in types):
+            # the classes caught are an option of the stepper (the caller asked for some
+            # exceptions to fail the step): what the default catches is in the constructor
+            raise AnalysisError(f"{label}: except {', '.join(types)} - configurable; not decided")
         if not ok:
             standing = _handler_standing(h)
             if standing == "safe":
@@ -349,7 +353,11 @@ def _atomic(run, P):
             res_names |= {t.id for t in a_.targets if isinstance(t, ast.Name)}
     sized = [n_ for n_ in g.nodes if n_.ast is not None and any(
         isinstance(x, ast.Call) and isinstance(x.func, ast.Name) and x.func.id in ("len", "tuple", "list")
-        and x.args and isinstance(x.args[0], ast.Name) and x.args[0].id in res_names
+        and x.args and (
+            (isinstance(x.args[0], ast.Name) and x.args[0].id in res_names)
+            # list(zip(assignees, results, ...)): the pairs are a finished list
+            or (isinstance(x.args[0], ast.Call) and dotted(x.args[0].func) == "zip"
+                and any(isinstance(a2, ast.Name) and a2.id in res_names for a2 in x.args[0].args)))
         for fr in own_fragments(n_) for x in walk_fragment(fr))]
     loop_stores = [n_ for n_ in muts if any(isinstance(lp, ast.For) and any(n_.ast is y for y in ast.walk(lp))
                                             for lp in ast.walk(f.node))]
@@ -448,6 +456,19 @@ def _driver_state(run, P):
                  for s_ in ast.walk(b) if isinstance(s_, ast.Assign) and isinstance(s_.value, ast.Constant)
                  for t_ in s_.targets if isinstance(t_, ast.Attribute) and dotted(t_.value) == "self"}
         attrs = [x for x in attrs if x.attr not in reset]
+        # an attribute that is given a newly made object (a fresh controller per step) holds
+        # nothing of earlier steps
+        fresh = {t_.attr for s_ in ast.walk(f.node) if isinstance(s_, ast.Assign)
+                 and isinstance(s_.value, ast.Call) and (dotted(s_.value.func) or "")[:1].isupper()
+                 for t_ in s_.targets if isinstance(t_, ast.Attribute) and dotted(t_.value) == "self"}
+        fresh |= {t_.attr for s_ in ast.walk(f.node) if isinstance(s_, ast.Assign)
+                  and isinstance(s_.value, ast.Name) and any(
+                      isinstance(a_, ast.Assign) and any(isinstance(n_, ast.Name) and n_.id == s_.value.id
+                                                         for n_ in a_.targets)
+                      and isinstance(a_.value, ast.Call) and (dotted(a_.value.func) or "")[:1].isupper()
+                      for a_ in ast.walk(f.node))
+                  for t_ in s_.targets if isinstance(t_, ast.Attribute) and dotted(t_.value) == "self"}
+        attrs = [x for x in attrs if x.attr not in fresh]
         run.ob("C11.confined", f, (stores + attrs)[0] if stores + attrs else f.node, not stores and not attrs,
                construct=f"NumpyInterpreter.{name} writes no variable (outside the cleanup) and no "
                          f"attribute but next_phase"
